@@ -198,6 +198,9 @@ VALUES = {
     "app_name": (("my-app", True), ("  ", False)),
     "greeting": (("Hi there", True), ("42", True), ("true", True), ("nan", None), ("-inf", None)),
     "brand_new_key": (("anything", True), ("7", True)),
+    # an existing key spelled with a hyphen is the same key
+    "log-level": (("DEBUG", True), ("LOUD", False)),
+    "max-retries": (("7", True), ("-5", False)),
     "brand-new-key": (("anything", True), ("0", True)),      # keys are normalised (- to _) when the file is loaded: get must find what set stored
 }
 
@@ -241,13 +244,20 @@ def h_config_set(ctx):
         saved = yaml.safe_load(after.decode()) if fmt == "yaml" else json.loads(after.decode())
         ctx.require("written-file-passes-validation", validate_config(saved)[0], saved=saved)
         cv = _converted(value)
-        same = saved.get(key) == cv or (isinstance(cv, float) and cv != cv and saved.get(key) != saved.get(key))     # nan == nan
-        ctx.require("value-survives-save-and-load", same and type(saved.get(key)) is type(cv), key=key, value=value, got=saved.get(key))
+        sk = key if key in saved else key.replace("-", "_")
+        same = saved.get(sk) == cv or (isinstance(cv, float) and cv != cv and saved.get(sk) != saved.get(sk))     # nan == nan
+        ctx.require("value-survives-save-and-load", same and type(saved.get(sk)) is type(cv), key=key, value=value, got=saved.get(sk))
         if start == "customised":
             ctx.require("other-settings-kept", saved.get("user_note") == "keep me" and (key == "timeout" or saved.get("timeout") == 12.5)
                         and (key == "greeting" or saved.get("greeting") == "Yo"), saved=saved)
         g = _invoke(["--config", str(f), "config", "get", key], d)
         ctx.require("config-get-returns-the-value", g.exit_code == 0 and g.output.strip() == str(cv), out=g.output, want=str(cv))
+        # the other spelling of the key names the same setting, and the file stays usable by every later command
+        g2 = _invoke(["--config", str(f), "config", "get", key.replace("-", "_")], d)
+        ctx.require("config-get-returns-the-value-under-the-underscore-spelling", g2.exit_code == 0 and g2.output.strip() == str(cv),
+                    out=g2.output[-200:], want=str(cv), key=key)
+        sh = _invoke(["--config", str(f), "config", "show"], d)
+        ctx.require("configuration-still-loads-after-the-set", sh.exit_code == 0, code=sh.exit_code, out=sh.output[-200:])
     finally:
         shutil.rmtree(d, True)
 
